@@ -1291,8 +1291,10 @@ macro_rules! local_proto {
             }
 
             /// the same `Paseto::builder()` object used for two consecutive try_encrypt calls
-            pub fn core_issue_twice(key: &[u8], seed: &[u8], msg: &str, footer: Option<&str>, assertion: Option<&str>) -> Vec<Out<String>> {
+            pub fn core_issue_twice(key: &[u8], key2: Option<&[u8]>, seed: &[u8], msg: &str, footer: Option<&str>, assertion: Option<&str>) -> Vec<Out<String>> {
                 sym_key!($V, key, k, vec![Out::Err(ErrClass::Harness("symmetric key must be 32 bytes".into()))]);
+                let key2 = key2.unwrap_or(key);
+                sym_key!($V, key2, k2, vec![Out::Err(ErrClass::Harness("symmetric key must be 32 bytes".into()))]);
                 let r = guard(|| {
                     let mut b = Paseto::<$V, Local>::builder();
                     b.set_payload(Payload::from(msg));
@@ -1301,7 +1303,7 @@ macro_rules! local_proto {
                     }
                     set_ia!($ia, b, assertion);
                     let first = local_proto!(@encrypt $m, $V, b, k, seed);
-                    let second = local_proto!(@encrypt $m, $V, b, k, seed);
+                    let second = local_proto!(@encrypt $m, $V, b, k2, seed);
                     vec![first, second]
                 });
                 match r {
@@ -1482,8 +1484,10 @@ macro_rules! public_proto {
             }
 
             /// the same `Paseto::builder()` object used for two consecutive try_sign calls
-            pub fn core_issue_twice(key: &[u8], _seed: &[u8], msg: &str, footer: Option<&str>, assertion: Option<&str>) -> Vec<Out<String>> {
+            pub fn core_issue_twice(key: &[u8], key2: Option<&[u8]>, _seed: &[u8], msg: &str, footer: Option<&str>, assertion: Option<&str>) -> Vec<Out<String>> {
                 priv_key!($kind, $V, key, k, vec![Out::Err(ErrClass::Harness("private key material of the wrong length".into()))]);
+                let key2 = key2.unwrap_or(key);
+                priv_key!($kind, $V, key2, k2, vec![Out::Err(ErrClass::Harness("private key material of the wrong length".into()))]);
                 let r = guard(|| {
                     let mut b = Paseto::<$V, Public>::builder();
                     b.set_payload(Payload::from(msg));
@@ -1492,7 +1496,7 @@ macro_rules! public_proto {
                     }
                     set_ia!($ia, b, assertion);
                     let first = b.try_sign(&k);
-                    let second = b.try_sign(&k);
+                    let second = b.try_sign(&k2);
                     vec![first, second]
                 });
                 match r {
@@ -1674,7 +1678,12 @@ pub fn core_issue_orders(p: Proto, key: &[u8], seed: &[u8], msg: &str, msg2: &st
 
 /// Core layer: one `Paseto::builder()` object issuing two tokens in a row.
 pub fn core_issue_twice(p: Proto, key: &[u8], seed: &[u8], msg: &str, footer: Option<&str>, assertion: Option<&str>) -> Vec<Out<String>> {
-    dispatch!(p, core_issue_twice(key, seed, msg, footer, assertion))
+    dispatch!(p, core_issue_twice(key, None, seed, msg, footer, assertion))
+}
+
+/// one core builder object, two issues with the same nonce: the first under `key`, the second under `key2`
+pub fn core_issue_twice_keys(p: Proto, key: &[u8], key2: &[u8], seed: &[u8], msg: &str, footer: Option<&str>, assertion: Option<&str>) -> Vec<Out<String>> {
+    dispatch!(p, core_issue_twice(key, Some(key2), seed, msg, footer, assertion))
 }
 
 pub fn build_history(p: Proto, layer: Layer, key: &[u8], ops: &[BOp]) -> Vec<BEvent> {
